@@ -169,10 +169,55 @@ def run_cases(chk, tier):
             shutil.rmtree(_TMP.pop(), ignore_errors=True)
 
 
+def derived_frames(chk, r, tier):
+    """frames derived from a frame that has already answered spatial questions (its partition bounds and index are memoised), or that
+    was packed before: the index of the packed result is the Hilbert distance of each row's active geometry against the total bounds
+    of the frame that is packed, for the p that is asked"""
+    import dask
+    import dask.dataframe as dd
+    from spatialpandas import GeoDataFrame
+    dask.config.set(scheduler="synchronous")
+    n = 60
+    for k in range(2 if tier == "quick" else 8):
+        pts = [[r.randint(0, 64), r.randint(0, 64)] for _ in range(n)]
+        pts2 = [[r.randint(100, 140), r.randint(-30, 30)] for _ in range(n)]
+        df = GeoDataFrame({"a": list(range(n)), "flag": [p_[0] < 24 and p_[1] < 40 for p_ in pts], "g1": geo.make_array("point", pts, "float64"),
+                           "g2": geo.make_array("point", pts2, "float64")}).set_geometry("g1")
+
+        def want(frame, col, p):
+            arr = frame[col].array
+            return sorted(zip((int(x) for x in arr.hilbert_distance(total_bounds=arr.total_bounds, p=p)), (int(a) for a in frame["a"])))
+
+        def got(packed):
+            res = packed.compute()
+            return sorted(zip((int(x) for x in res.index), (int(a) for a in res["a"])))
+        scen = []
+        try:
+            ddf = dd.from_pandas(df, npartitions=3)
+            ddf.partition_sindex
+            ddf.cx[0:10, 0:10].compute()
+            scen.append(("row-selection-after-a-spatial-lookup", ddf[ddf.flag].pack_partitions(npartitions=2, p=6), want(df[df.flag], "g1", 6)))
+            scen.append(("column-selection-after-a-spatial-lookup", ddf[["a", "g1"]].pack_partitions(npartitions=2, p=6), want(df, "g1", 6)))
+            first = dd.from_pandas(df, npartitions=3).pack_partitions(npartitions=3, p=7)
+            scen.append(("packed-again-with-another-p", first.pack_partitions(npartitions=2, p=4), want(df, "g1", 4)))
+            scen.append(("packed-again-for-another-geometry-column", first.set_geometry("g2").pack_partitions(npartitions=2, p=7), want(df, "g2", 7)))
+            scen.append(("rows-selected-from-a-packed-frame", first[first.flag].pack_partitions(npartitions=2, p=7), want(df[df.flag], "g1", 7)))
+            for name, packed, w in scen:
+                chk.evaluated(n)
+                g = got(packed)
+                if g != w:
+                    what = "rows-differ" if sorted(a for _, a in g) != sorted(a for _, a in w) else "index-is-not-the-hilbert-distance-of-the-packed-frame"
+                    chk.violation(f"pack_partitions/derived-frame/{name}/{what}", dict(api="pack_partitions", scenario=name, points=pts[:8], got=g[:8], expected=w[:8]))
+        except Exception as e:  # noqa: BLE001
+            chk.violation(f"pack_partitions/derived-frame/raises-{common.err_kind(e)}", dict(api="pack_partitions", done=[s_[0] for s_ in scen], error=repr(e)[:300]))
+    chk.count("derived-frames")
+
+
 def _run_cases(chk, tier):
     import dask
     from .c01 import random_family
     dask.config.set(scheduler="synchronous")
+    derived_frames(chk, common.rng(PROP + "-derived"), tier)
     r = common.rng(PROP)
     rounds = 22 if tier == "quick" else 250
     for k in range(rounds):
